@@ -3,7 +3,7 @@ import json, os, re, shutil
 from tools.check import MachineryError
 
 RULE = ("V: every batch of Coalesce.tla's lattice (per lane: TCP 27 / UDP 17 / mixed 10 packet kinds [thorough 37 / 23] = flag sets, "
-        "pure ACKs, short / long / 30000-byte payloads, sequence gaps and retransmissions across the 2^32 wrap, DF / sequential / "
+        "pure ACKs, short / long / 32750-byte payloads, sequence gaps and retransmissions across the 2^32 wrap, DF / sequential / "
         "jumping IPv4 IDs across the 2^16 wrap, DSCP/ECN and other header variants, IP options / extension headers, first and "
         "later fragments, length fields that disagree with the bytes; batches of <= 3 packets [<= 4], IPv4 and IPv6, one or two "
         "tunnel sessions, arrival order permuted) is one TLC state on which TLC checks that the machine (sort by (epoch, counter) "
@@ -126,7 +126,10 @@ def run(ctx):
         multi, alt, order, geo, who = v
         cls = i['cls'][who - 1] if 1 <= who <= len(i['cls']) else 'unknown'
         why = (i.get('why') or {}).get(str(who), '')
-        if multi != 'ok':
+        if geo != 'ok':
+            key = 'geometry:%s:%s' % (geo, ':'.join(cls.split(':')[:2]))
+            what = 'an offloaded write has a geometry the kernel refuses (%s%s)' % (geo, ': ' + i['why']['hdr'] if (i.get('why') or {}).get('hdr') else '')
+        elif multi != 'ok':
             key, what = '%s:%s' % (multi, cls), 'packet %d (%s) is %s' % (who, cls, multi)
             if multi == 'alien':
                 why = (i.get('why') or {}).get('0', '')
@@ -136,9 +139,6 @@ def run(ctx):
             what = 'packet %d (%s) reaches the tun altered beyond the fields the kernel rewrites (%s)' % (who, cls, why)
         elif order != 'ok':
             key, what = 'reordered:%s' % cls, 'packet %d (%s) comes out after a later packet of its flow and session' % (who, cls)
-        else:
-            key = 'geometry:%s:%s' % (geo, cls)
-            what = 'an offloaded write has a geometry the kernel refuses (%s%s)' % (geo, ': ' + i['why']['hdr'] if (i.get('why') or {}).get('hdr') else '')
         if i.get('err'):
             what += '; Commit/Flush returned: ' + i['err']
         per[key] = per.get(key, 0) + 1
